@@ -30,3 +30,16 @@ CHECKS = {
                  "processes is reported from the absence of any lock (known finding), not explored."),
     },
 }
+
+CHECKS["C19"] = {
+    "technique": "static analysis: taint of user-supplied paths + dominance by the validator's success, sibling agreement of the three validator copies, regex-alphabet analysis of name/digest patterns, who-may-call rule for load_schema",
+    "text": ("Decides: every filesystem access (including stat-level) on target_path / file_path / CLI output paths and their aliases is dominated by the path "
+             "validator having accepted that value (interprocedurally for callees with read/write effects); the three validator copies all contain the '..' "
+             "component test, the per-component symlink walk with the identical exemption and the documented suffix set, return success only after all three and "
+             "turn every exception into rejection; no symlink test is weakened by exists(); schema names are matched against an anchored pattern whose alphabet "
+             "has no path characters before any join and load_schema has only vetted callers; the frozen@ cache file name derives only from a 64-hex capture and is "
+             "returned only after the digest comparison; SOURCE_URI-derived files are touched only after relative_to(root) succeeded and the root must not derive "
+             "from the document (one recorded known finding in the CLI); the final-component symlink re-check dominates mkstemp."),
+    "note": ("Behaviour on concrete directory layouts (races between check and use, bind mounts) is not decided. Taint is flow-insensitive inside a function and follows "
+             "callees to depth 3. The `$` of the schema-name pattern also admits a trailing newline; this cannot cross a directory and is recorded in the evidence only."),
+}
